@@ -7,16 +7,18 @@ P = {
     "theorems_module": "Properties.C03",
     "theorems": ["C03_method_list_semantics", "C03_method_list_rejected", "C03_hosts_any", "C03_decode_per_setting",
                  "C03_route_matches_iff", "C03_captures_exact", "C03_unnamed_not_exposed",
-                 "C03_F1_refuted", "C03_F2_refuted", "C03_F3_refuted", "C03_F4_refuted", "C03_F5_refuted",
-                 "C03_F5_panic_refuted", "C03_F6_refuted", "C03_F7_refuted", "C03_F8_refuted", "C03_nonvacuous"],
+                 "C03_F1_refuted", "C03_F3_refuted", "C03_F4_refuted", "C03_F8_refuted",
+                 "C03_F2_pinned_refuted", "C03_F5_pinned_refuted", "C03_F5_pinned_panic_refuted", "C03_F6_pinned_refuted",
+                 "C03_F7_pinned_refuted", "C03_nonvacuous"],
     "streams": [{
         "name": "routes", "pkg": "./internal/rules", "test": "TestVerifC03",
         "overlay": {"internal/rules/zz_verif_c03_test.go": "c03/c03_test.go"},
         "eval_module": "Run.Eval_C03",
-        # check fx2 fx5: the model with / without the candidate repairs fixes/C03-F2.diff, fixes/C03-F5.diff
-        "check_term": "check false false",
+        # check fx2 fx5 fx6 fx7: the model with (true) / without the repairs of C03-F2 (88da16a), F5 (16cf34b),
+        # F6 (72ba5d4), F7 (a779db8); all four are in /repo now
+        "check_term": "check true true true true",
         "n_quick": 1200, "n_thorough": 30000, "shard": 100,
-        "findings": {1: "C03-F1", 2: "C03-F2", 3: "C03-F3", 4: "C03-F4", 5: "C03-F5", 6: "C03-F6", 7: "C03-F7", 8: "C03-F8"},
+        "findings": {1: "C03-F1", 3: "C03-F3", 4: "C03-F4", 8: "C03-F8"},
     }],
     "rule": "a case = a rule set of 1-4 rules (scheme in {'',http,https,ftp}; method lists with ALL / !M / !!M / duplicates / unknown / empty string; 0-3 hosts "
             "of type exact/glob/regex incl. non-compiling and unknown types; 1-2 routes per rule, 60% mutated from earlier expressions of the case "
